@@ -23,7 +23,7 @@ Wrap(form, e)            == [k |-> "wrap", form |-> form, e |-> e]
 
 RECURSIVE Eval(_), EvalEntries(_, _, _), EvalItems(_)
 Eval(e) ==
-  CASE e.k \in {"ident", "call", "member"} -> e.rv
+  CASE e.k \in {"ident", "call", "member", "index"} -> e.rv
     [] e.k = "lit"       -> e.v
     [] e.k = "undefined" -> Undef
     [] e.k = "objlit"    -> Obj(EvalEntries(e.es, 1, <<>>))
@@ -54,6 +54,29 @@ AvExpr(e)   == [k |-> "expr", e |-> e]
 Plain(name, val)    == [k |-> "plain", name |-> name, val |-> val]
 NsAttr(ns, name, v) == [k |-> "ns", ns |-> ns, name |-> name, val |-> v]
 Spread(e)           == [k |-> "spread", e |-> e]
+
+(* directive value shapes: AvNone | AvStr | AvExpr | the array forms [v], [v,arg], [v,[mods]], [v,arg,[mods]] *)
+AvArr(v, hasArg, arg, hasMods, mods) ==
+  [k |-> "arr", v |-> v, hasArg |-> hasArg, arg |-> arg, hasMods |-> hasMods, mods |-> mods]
+
+(* v-name / vName directive: structured spelling (the renderer joins the words) *)
+Dir(style, words, arg, mods, val) ==
+  [k |-> "dir", style |-> style, words |-> words, arg |-> arg, mods |-> mods, val |-> val]
+VHtml(val) == [k |-> "vhtml", val |-> val]
+VText(val) == [k |-> "vtext", val |-> val]
+VSlots(e)  == [k |-> "vslots", e |-> e]
+
+(* v-model: target expression, argument form, modifier form *)
+VModel(target, argform, arg, argexpr, modform, mods) ==
+  [k |-> "vmodel", target |-> target, argform |-> argform, arg |-> arg, argexpr |-> argexpr,
+   modform |-> modform, mods |-> mods]
+VModels(list) == [k |-> "vmodels", list |-> list]
+Index(obj, prop, rv) == [k |-> "index", obj |-> obj, prop |-> prop, rv |-> rv]
+
+Capitalize(w) ==
+  CASE w = "foo" -> "Foo" [] w = "bar" -> "Bar" [] w = "show" -> "Show" [] w = "model" -> "Model"
+    [] w = "html" -> "Html" [] w = "text" -> "Text" [] w = "slots" -> "Slots" [] w = "x" -> "X"
+    [] OTHER -> w
 
 ChText(syms) == [k |-> "text", syms |-> syms]
 ChExpr(e)    == [k |-> "expr", e |-> e]
